@@ -9,7 +9,7 @@ if ! git -C "$wt" apply "$patch"; then echo "PATCH-DOES-NOT-APPLY"; git -C /repo
 base=$(/tmp/wt/baseline.sh "$wt" 2>&1 | tail -1)
 mkdir -p "$sc"
 for p in "$@"; do
-  LISPSIM_REPO=$wt LISPSIM_BUILD=$sc/build LISPSIM_REPLAYS=$sc/replays LISPSIM_EVID=$sc/evid /verif/check "$p" quick > "$sc/$p.out" 2>&1
+  LISPSIM_REPO=$wt LISPSIM_BUILD=$sc/build LISPSIM_REPLAYS=$sc/replays LISPSIM_EVID=$sc/evid "$(dirname "$0")/../check" "$p" quick > "$sc/$p.out" 2>&1
   rc=$?
   case $rc in 0) v=SILENT;; 1) v=ALARM;; *) v=TROUBLE;; esac
   echo "$(basename $(dirname $patch)) vs $p: $v (exit $rc) [$base]"
